@@ -465,6 +465,17 @@ impl Gen {
             Kd::Extend | Kd::ExtendRef | Kd::FromIter => {
                 let n = if self.universe >= 200 { *rng.pick(&[3u64, 8, 30, 80, 200]) } else { *rng.pick(&[0u64, 1, 2, 3, 5, 8, 13, 30]) };
                 let mut v = Vec::new();
+                if self.big_tables && kind == Kd::Extend && sv.len < 60_000 && rng.below(12) == 0 {
+                    // more than 2^16 elements at once (consecutive ids beyond the run's universe): counters and
+                    // indices beyond 16 bits
+                    let start = 1_000_000 + rng.below(1_000_000) as i64;
+                    let m = 66_000 + rng.below(6_000) as i64;
+                    for i in 0..m {
+                        v.push(start + i);
+                        v.push(i & 0xfffff);
+                    }
+                    return Op::new(kind).s(s).a(-1).v(v);
+                }
                 for _ in 0..n {
                     v.push(self.key(rng, sv, 30) as i64);
                     v.push(rng.below(1 << 20) as i64);
